@@ -21,12 +21,12 @@ def keyfn_free(variant, f):
     return "%s.%s %s%s" % (variant, f.op, f.kind, ("/" + d) if d else "")
 
 
-def record_validate(ctx, exe, cls, hargs, hist, init, module, cfg, corrupt=None, tag=None, sid0=1):
+def record_validate(ctx, exe, cls, hargs, hist, init, module, cfg, corrupt=None, tag=None, sid0=1, env=None):
     """hist: list of histories (lists of 'op arg..' lines).  Reports violations through ctx.
     Returns (events_validated, max_size_of_a, accepted).  corrupt(events) may damage the events (binding demonstration)."""
     # script ids matter: harnesses started with text family -1 choose the family from the id
     texts = [script_text(k + sid0, h) for k, h in enumerate(hist)]
-    fails, recs, ns, nt = run_scripts(exe, hargs, texts, ctx.rundir, jobs=4, tag="rec-" + (tag or cls))
+    fails, recs, ns, nt = run_scripts(exe, hargs, texts, ctx.rundir, jobs=4, env=env, tag="rec-" + (tag or cls))
     bad_sids = set()
     for f in fails:
         bad_sids.add(f.sid)
